@@ -311,7 +311,7 @@ def main(argv: list[str] | None = None) -> int:
         if new_by_sig and not pool_broken:
             os.makedirs(os.path.join(VERIF, "replays"), exist_ok=True)
             jobs = {}
-            for sig, vs in sorted(new_by_sig.items())[:8]:
+            for sig, vs in sorted(new_by_sig.items())[:12]:
                 vs.sort(key=lambda v: len(v["tape"]))
                 v = vs[0]
                 if args.no_minimise:
